@@ -31,6 +31,11 @@ try)
   name=$1; shift
   cd /repo || exit 2
   test -z "$(git status --porcelain)" || { echo "/repo not clean"; exit 2; }
+  # whatever ends this script (kill, SIGPIPE, session end), /repo goes back to
+  # its committed state: a change left applied was once snapshotted into /repo
+  # (DESIGN 8.1, commit 743949f).
+  trap 'git -C /repo checkout -- .' EXIT
+  trap 'exit 130' INT TERM HUP PIPE
   git apply /verif/seeded/$name/patch.diff || { echo "patch does not apply"; exit 2; }
   export VERIF_EVIDENCE_DIR=/tmp/seeded_evidence
   for p in "$@"; do
